@@ -505,9 +505,9 @@ func (txn *Txn) Get(key []byte) (item *Item, rerr error) {
 	}
 	defer vs.DecrRef()
 
-	if vs.Value == nil && vs.Meta == 0 {
-		return nil, utils.ErrKeyNotFound
-	}
+	// A miss is reported through err above. An entry with an empty value is a live entry
+	// (read back from an SST its value is a nil slice), only the meta bits and the expiry
+	// decide whether it is visible.
 	if isDeletedOrExpired(vs.Meta, vs.ExpiresAt) {
 		return nil, utils.ErrKeyNotFound
 	}
